@@ -6,13 +6,19 @@ open Yorkie Yorkie.Driver Yorkie.Crdt
 
 structure St where
   reps : List (String × Doc) := []
+  /-- the replica's change id (`InternalDocument.changeID`): C06's client clock -/
+  clocks : List (String × ChangeID) := []
 
 def getRep (s : St) (r : String) : Doc :=
   match s.reps.find? (·.1 == r) with
   | some p => p.2
   | none => Doc.init
 
-def setRep (s : St) (r : String) (d : Doc) : St := { reps := regSet s.reps r d }
+def setRep (s : St) (r : String) (d : Doc) : St := { s with reps := regSet s.reps r d }
+
+def parseID (toks : List String) : ChangeID :=
+  { clientSeq := parseNatD (arg toks "cs"), serverSeq := 0, lamport := parseIntD (arg toks "lam"),
+    actor := parseNatD (arg toks "actor"), vv := parseVV (arg toks "vv") }
 
 def parseVal (v : String) : Option Val :=
   if v == "obj" then some .newObj
@@ -46,6 +52,20 @@ def showErr : Err → String
 def step (s : St) (toks : List String) : St × List String :=
   match toks with
   | ["R", r] => (setRep s r Doc.init, ["ok"])
+  | ["R", r, a] =>
+    let s := setRep s r Doc.init
+    ({ s with clocks := regSet s.clocks r (ChangeID.initial.setActor (parseNatD a)) }, ["ok"])
+  | ["CID", r, "local"] =>
+    -- `Update`: the change gets `changeID.Next()` and the document adopts it
+    let id := (regGet s.clocks r).next
+    ({ s with clocks := regSet s.clocks r id }, [showID id])
+  | "CID" :: r :: "recv" :: rest =>
+    -- `applyChanges`: `changeID = changeID.SyncClocks(c.ID())`
+    let id := (regGet s.clocks r).syncClocks (parseID rest)
+    ({ s with clocks := regSet s.clocks r id }, ["ok"])
+  | ["CIDQ", r] =>
+    let id := regGet s.clocks r
+    (s, [s!"lam={id.lamport} vv={showVV id.vv}"])
   | "OP" :: r :: rest =>
     match parseOp rest with
     | none => (s, ["unsupported"])
